@@ -2500,6 +2500,10 @@ class Wallet(object):
             if nkey:
                 new_keys.append(nkey)
             if len(new_keys) < number_of_keys:
+                # The keys created in bulk are on the chain of the path asked for (also when its first key existed already)
+                change_pos = [self.key_path.index(chg) for chg in ["change", "change'"] if chg in self.key_path]
+                if change_pos and change_pos[0] < len(fullpath):
+                    change = int(fullpath[change_pos[0]].strip("'"))
                 parent_id = new_keys[0].parent_id
                 if parent_id not in self._key_objects:
                     self.key(parent_id)
